@@ -367,6 +367,7 @@ static int g_itproj;
 static void emit_itproj(dses_t *s)
 {
 	if (!g_itproj || s->codec != 3 || s->role != 2 || !s->configured || (int)s->n > g_itproj || s->payload) return;
+#ifndef OF_DRIVER_NO_INTERNALS      /* built without it when the control block no longer has these fields (vlib.build_driver) */
 	of_linear_binary_code_cb_t *cb = (of_linear_binary_code_cb_t *)s->ses;
 	if (!cb->pchk_matrix || !cb->tab_nb_unknown_symbols) return;
 	jb_printf(",\"it\":{\"unk\":[");
@@ -388,6 +389,7 @@ static void emit_itproj(dses_t *s)
 	jb_printf("],\"known\":[");
 	{ int first = 1; for (uint32_t i = 0; i < s->n; i++) if (cb->encoding_symbols_tab[i]) { jb_printf("%s%u", first ? "" : ",", i); first = 0; } }
 	jb_printf("],\"nrep\":%u}", (unsigned)cb->nb_repair_symbol_ready);
+#endif
 }
 
 static void emit_common(dses_t *s, int sid, int st)
@@ -494,6 +496,7 @@ static void cmd_params(int sid, uint32_t k, uint32_t r, uint32_t len, uint32_t m
 		s->configured = 1;
 		/* parity-check rows of this very session */
 		if (s->codec == 3 && g_hook_have) { s->H = g_hookH; s->Hn = g_hookHn; s->nH = g_hooknH; g_hookH = NULL; g_hookHn = NULL; g_hooknH = 0; g_hook_have = 0; }
+#ifndef OF_DRIVER_NO_INTERNALS
 		else if (s->codec == 3) {
 			/* no pchk_done event (hook removed by a refactoring): fall back to the control block of an encoder
 			 * session, whose matrix is never consumed (a decoder deletes entries of its own matrix) */
@@ -511,6 +514,7 @@ static void cmd_params(int sid, uint32_t k, uint32_t r, uint32_t len, uint32_t m
 				}
 			}
 		}
+#endif
 		else if (s->codec == 5) capture_H(((of_2d_parity_cb_t *)s->ses)->pchk_matrix, k, r, &s->H, &s->Hn, &s->nH);
 		/* application buffers */
 		s->raw = calloc(s->n, sizeof(void *)); s->cw = calloc(s->n, sizeof(void *)); s->orig = calloc(s->n, sizeof(void *)); s->have = calloc(s->n, sizeof(int));
@@ -794,6 +798,7 @@ static void run_line(char *line)
 		of_status_t st = of_finish_decoding(s->ses);
 		LIB_LEAVE();
 		jb_printf("{\"e\":\"Finish\",\"x\":%ld,\"s\":%d", g_exec, sid);
+#ifndef OF_DRIVER_NO_INTERNALS
 		if (g_itproj && s->codec == 3 && s->configured && (int)s->n <= g_itproj && !s->payload && s->r <= MAXML) {
 			of_linear_binary_code_cb_t *cb = (of_linear_binary_code_cb_t *)s->ses;
 			jb_printf(",\"ml\":{\"perm\":[");
@@ -804,6 +809,7 @@ static void run_line(char *line)
 			{ int first = 1; for (uint32_t i = 0; i < s->k; i++) if (cb->encoding_symbols_tab[i]) { jb_printf("%s%u", first ? "" : ",", i); first = 0; } }
 			jb_printf("]}");
 		}
+#endif
 		emit_common(s, sid, st); jb_printf("}\n"); jb_flush();
 	} else if (!strcmp(op, "complete")) {
 		LIB_ENTER(sid);
